@@ -382,6 +382,13 @@ class PostponedModule:
         sys.modules.pop(self.modname, None)
 
 
+def shown_src(cm, src):
+    """the source as reported with a failure: says when the module has the future import"""
+    if (cm.get('spelling') or {}).get('module') == 'future':
+        return 'from __future__ import annotations\n# ...\n' + src
+    return src
+
+
 def build_module(cm, src):
     """the module holding the rendered classes, written the way the class model's spelling says"""
     if (cm.get('spelling') or {}).get('module') == 'future':
@@ -913,7 +920,7 @@ def build(cm):
     cname = model.fresh('A')
     src = render_class(cm, cname)
     built = build_module(cm, src)
-    return built, built.get(cname), src
+    return built, built.get(cname), shown_src(cm, src)
 
 
 def evaluate(ctx, cm, docs, vals, reqs, pend):
